@@ -257,7 +257,12 @@ class G:
                     choices += [lambda: f"indexed-repeat(${{{t}}}, ${{{outer}}}, position(../..), ${{{rp}}}, 1) = {L}",
                                 lambda: f"indexed-repeat(${{{t}}}, ${{{outer}}}, (1), ${{{rp}}}, count(${{{rp}}})) = {L} or {r()} = ''",
                                 lambda: f"indexed-repeat(${{{t}}}, ${{{outer}}}, 1, ${{{rp}}}, 2) = {L}"]
-        return self.pick(choices)()
+        e = self.pick(choices)()
+        if ("indexed-repeat(" in e or "instance('" in e) and self.p("_", 0.2):
+            # XPath allows white space between a function name and its parenthesis
+            sp = self.pick([" ", "  "])
+            e = e.replace("indexed-repeat(", "indexed-repeat" + sp + "(").replace("instance('", "instance" + sp + "('")
+        return e
 
     def calc(self):
         nm = self.names
